@@ -38,6 +38,17 @@ def run_batches(o, binary, batches, pid_tag):
         evs = common.read_ndjson(trace)
         for k, v in dbgen.count_kinds(evs).items():
             kinds[k] = kinds.get(k, 0) + v
+        # coverage of the interesting compaction shapes
+        pend_sel = None
+        for e in evs:
+            if e["t"] == "compact.candidates":
+                pend_sel = e
+            elif e["t"] == "compact.select" and e.get("compacting") and pend_sel and pend_sel["selected"]:
+                tag = "tlc" if name.startswith(("tlc", "lin")) else "random"
+                if pend_sel["tables"] and pend_sel["selected"][0] != pend_sel["tables"][0]["gen"]:
+                    kinds["compaction_excluding_oldest_" + tag] = kinds.get("compaction_excluding_oldest_" + tag, 0) + 1
+                else:
+                    kinds["compaction_including_oldest_" + tag] = kinds.get("compaction_including_oldest_" + tag, 0) + 1
         o.traces += len(cases)
         for b in bad[:20]:
             case = b.get("case", -1)
